@@ -82,6 +82,45 @@ def narrow_field_cases(ctx, n):
     return out
 
 
+def widened_allones_cases(ctx, n):
+    """Stratum: a numeric element whose field is WIDENED (201YYY with YYY > 128, 207YYY) and whose raw value in one subset is
+    the all-ones pattern of its TABLE B width: an ordinary value of the wider field, not missing. Several subsets with
+    differing values, mostly compressed."""
+    import tmplgen
+    rng = ctx.rng
+    p = tmplgen.pools(33)
+    els = [i for i in p.numeric if 3 <= p.b[i][4] <= 20 and 0 <= p.b[i][2] <= 3 and i // 1000 != 31]
+    out = []
+    for _ in range(n):
+        e = rng.choice(els)
+        on = rng.choice([201129, 201130, 201132, 201136, 207001, 207002])
+        out.append({'ids': [1001, on, e, on // 1000 * 1000, e], 'version': 33, 'edition': 4, 'nsub': rng.choice([2, 3, 4]),
+                    'compressed': rng.random() < 0.8, 'forced': '-', 'seed': rng.randrange(1, 2 ** 32), 'maxrep': 3,
+                    'features': {'stratum-tableB-allones-in-widened-field': 1}, 'shared': False,
+                    'probe': 'tableB-allones-in-widened-field'})
+    return out
+
+
+def apply_probe(c):
+    """Values of a probe case: a function of the case record only (replays rebuild them)."""
+    if c.get('probe') != 'tableB-allones-in-widened-field' or not c.get('val_toks'):
+        return
+    import tmplgen
+    p = tmplgen.pools(c.get('version', 33))
+    on, e = c['ids'][1], c['ids'][2]
+    w0, s0, r0 = p.b[e][4], p.b[e][2], p.b[e][3]
+    if on // 1000 == 201:
+        s, r = s0, r0
+    else:
+        y = on % 1000
+        s, r = s0 + y, r0 * 10 ** y
+    for j, toks in enumerate(c['val_toks']):
+        raw = 2 ** w0 - 1 if j == 1 else (j + 1) % (2 ** w0 - 1)
+        m = raw + r
+        toks[1] = ('i%d' % m) if s == 0 else 'd%d:%d' % (m, s)
+        c['py_vals'][j][1] = B.model_value_to_python(toks[1])
+
+
 def run(ctx):
     ctx.rule = ('templates drawn from a grammar over the real Table B/D (sequences, nested fixed/delayed replication, operators '
                 '201-208, 221, bitmap constructs 222-225/232/235-237) x values from the model-side generator (0, 1, max-1, '
@@ -100,8 +139,11 @@ def run(ctx):
         cases.append({'ids': [1001, 201000 + 128 + (w - 15), 7001, 201000, 1002], 'version': 33, 'edition': 4, 'nsub': 1,
                       'compressed': False, 'forced': '-', 'seed': rng.randrange(1, 2 ** 32), 'maxrep': 3,
                       'features': {'field-wider-than-64-bits': 1}, 'shared': False})
+    cases += widened_allones_cases(ctx, ctx.n(24, 400))
     P.attach_templates(cases)
     P.run_gen(cases)
+    for c in cases:
+        apply_probe(c)
     P.run_encode(cases)
     P.run_decode(cases)
     n_ok = 0
@@ -119,7 +161,9 @@ def run(ctx):
         nontriv = any(i >= 100000 for i in c['ids'])
         ctx.count((tuple(c['ids']), c['seed'], c['edition']), nontriv)
         case = {'ids': c['ids'], 'seed': c['seed'], 'forced': c['forced'], 'nsub': c['nsub'],
-                'version': c['version'], 'edition': c['edition']}
+                'version': c['version'], 'edition': c['edition'], 'compressed': c['compressed'], 'shared': c['shared']}
+        if c.get('probe'):
+            case['probe'] = c['probe']
         eq, detail = P.compare_decode(c)
         if not eq:
             rec = classify_mismatch(detail)
@@ -158,8 +202,9 @@ def replay(ctx, rec):
         _, vals, _, _ = B.decode_impl(bytes.fromhex(c['bytes']))
         return {'decoded': vals}
     cases = [{'ids': c['ids'], 'version': c.get('version', 33), 'edition': c.get('edition', 4), 'nsub': c['nsub'],
-              'compressed': False, 'forced': c['forced'], 'seed': c['seed'], 'maxrep': 3, 'features': {}, 'shared': False}]
-    P.attach_templates(cases); P.run_gen(cases); P.run_encode(cases); P.run_decode(cases)
+              'compressed': c.get('compressed', False), 'forced': c['forced'], 'seed': c['seed'], 'maxrep': 3, 'features': {},
+              'shared': c.get('shared', False), 'probe': c.get('probe')}]
+    P.attach_templates(cases); P.run_gen(cases); apply_probe(cases[0]); P.run_encode(cases); P.run_decode(cases)
     eq, detail = P.compare_decode(cases[0])
     if not eq:
         r = classify_mismatch(detail); r['case'] = c
